@@ -9,5 +9,7 @@ def check(ctx, rep):
     treer.tree_11(ctx, rep)
     from ..rules import rxr
     rxr.tree_8(ctx, rep)      # end_pos is the key of the position lookup: multi-line token kinds never get the single-line end_pos
+    from ..rules import treer as _t4
+    _t4.tree_4(ctx, rep)        # no pickling / copying hook rebuilds parent links (copy.copy shares the children list)
     rep.note('Not decided: that the binary search of the position lookup selects the right child (comparisons over positions); '
              'decided only: it returns what it located.')
